@@ -306,6 +306,26 @@ func (s *OuterJoin) receiveRecord(ctx ExecutionContext, produce ProduceFn, myRec
 		}
 		key[i] = value
 	}
+	for i := range key {
+		if key[i].TypeID == octosql.TypeIDNull {
+			// The key columns come from equality conditions and NULL is equal to nothing, not even to NULL:
+			// this record can't match any record, now or later. On an outer side it is an unmatched row.
+			if s.isOuterLeft && amLeft {
+				outputValues := make([]octosql.Value, s.leftFieldCount+s.rightFieldCount)
+				copy(outputValues, record.Values)
+				if err := produce(ProduceFromExecutionContext(ctx), NewRecord(outputValues, record.Retraction, record.EventTime)); err != nil {
+					return fmt.Errorf("couldn't produce: %w", err)
+				}
+			} else if s.isOuterRight && !amLeft {
+				outputValues := make([]octosql.Value, s.leftFieldCount+s.rightFieldCount)
+				copy(outputValues[s.leftFieldCount:], record.Values)
+				if err := produce(ProduceFromExecutionContext(ctx), NewRecord(outputValues, record.Retraction, record.EventTime)); err != nil {
+					return fmt.Errorf("couldn't produce: %w", err)
+				}
+			}
+			return nil
+		}
+	}
 
 	firstRecordForThatKeyOnThisSide := false
 	lastRetractionForThatKeyOnThisSide := false
